@@ -211,7 +211,7 @@ def count_obligations(files):
 def assumptions_of(prop_vo_log):
     """collect the 'Print Assumptions' blocks printed while compiling a Props file"""
     res = []
-    for m in re.finditer(r'(Closed under the global context|Axioms:\n(?:.+\n?)+?)(?=\n\S|\Z)', prop_vo_log):
+    for m in re.finditer(r'(Closed under the global context|Axioms:\n(?:.+\n?)+?)(?=\n\S|\n?\Z)', prop_vo_log):
         res.append(' '.join(m.group(1).split()))
     return res
 
